@@ -21,7 +21,7 @@ RULE = ('random expression trees of depth 1..6 over + - neg abs *k k* /k %k with
         'distinct = (class, operator, operand-class, sign/zero class) buckets')
 ASSUMPTIONS = ['angle_exact gives the denoted value of every operand/result from the stored fields (exact rationals)',
                'comparisons closer than the 1e-8" resolution may answer either way (DESIGN.md section 5)']
-REQUIRED_COUNTERS = ['op:add', 'op:sub', 'op:radd', 'op:rsub', 'op:mul', 'op:rmul', 'op:truediv', 'op:neg', 'op:abs', 'op:mod', 'op:eq', 'op:lt',
+REQUIRED_COUNTERS = ['numpy_scalar_operands', 'round_then_mod_sequences', 'op:add', 'op:sub', 'op:radd', 'op:rsub', 'op:mul', 'op:rmul', 'op:truediv', 'op:neg', 'op:abs', 'op:mod', 'op:eq', 'op:lt',
                      'op:gt', 'op:ne', 'op:round', 'trees']
 N = {'quick': 400, 'thorough': 6000}
 SHARDS = {'quick': 16, 'thorough': 32}
@@ -33,6 +33,11 @@ BIN = {'__add__': operator.add, '__sub__': operator.sub}
 
 def _den(x):
     return ax.denote(x)
+
+
+def _isnum(b):
+    import numpy as np
+    return isinstance(b, (int, float, np.integer, np.floating))
 
 
 def _ulp4(v):
@@ -77,17 +82,17 @@ class OpMonitors:
             else:
                 want = db - da
         elif op in ('__mul__', '__rmul__'):
-            if self._isangle(b) or isinstance(b, bool) or not isinstance(b, (int, float)):
+            if self._isangle(b) or isinstance(b, bool) or not _isnum(b):
                 return
-            want = Fraction(float(da)) * Fraction(b) if False else da * Fraction(b)
+            want = da * Fraction(float(b))
         elif op == '__truediv__':
-            if self._isangle(b) or isinstance(b, bool) or not isinstance(b, (int, float)) or b == 0:
+            if self._isangle(b) or isinstance(b, bool) or not _isnum(b) or b == 0:
                 return
-            want = da / Fraction(b)
+            want = da / Fraction(float(b))
         elif op == '__mod__':
-            if self._isangle(b) or isinstance(b, bool) or not isinstance(b, (int, float)) or b == 0:
+            if self._isangle(b) or isinstance(b, bool) or not _isnum(b) or b == 0:
                 return
-            k = Fraction(b)
+            k = Fraction(float(b))
             want = da - k * math.floor(da / k)
         else:
             return
@@ -96,6 +101,8 @@ class OpMonitors:
             return
         ctx.judged()
         ctx.count('op:' + short)
+        if b is not None and type(b).__module__ == 'numpy':
+            ctx.count('numpy_scalar_operands')
         ctx.bucket(cls, short, type(b).__name__ if b is not None else '-', 'neg' if da < 0 else ('zero' if da == 0 else 'pos'),
                    'subdeg' if abs(da) < 1 else 'deg')
         if exc is not None:
@@ -112,7 +119,7 @@ class OpMonitors:
         tol = TOL + _ulp4(want) + _ulp4(da)
         err = abs(dr - want)
         if op == '__mod__':
-            k = abs(Fraction(b))
+            k = abs(Fraction(float(b)))
             err = min(err, abs(err - k))       # wrap-around at a multiple of the modulus is the same angle class
         ctx.maxi('C12.op_err_arcsec', float(err * 3600))
         if err > tol:
@@ -282,13 +289,32 @@ def gen_tree(rnd, depth):
     if r < 0.70:
         return ['abs', gen_tree(rnd, depth - 1)]
     k = rnd.choice([2, 3, 0.5, -1, -2.5, 1.25, 4, 1, rnd.choice([-1, 1]) * round(rnd.uniform(0.25, 4), 3)])
+    if rnd.random() < 0.25:
+        # numpy scalars are numbers too (np.float64 is a float subclass); float32 is left out: a float32 factor makes the
+        # plain float operation itself single precision, so there is nothing to hold the library to
+        dt = rnd.choice(['float64', 'int64'])
+        k = {'np': dt, 'v': ((int(k) or 2) if dt == 'int64' else k)}
     if r < 0.78:
         return ['mul', gen_tree(rnd, depth - 1), k]
     if r < 0.86:
-        return ['rmul', gen_tree(rnd, depth - 1), k]
+        # k * a with a numpy scalar on the left is decided by numpy's own operator (it treats a float-subclass angle as a
+        # float and never asks the angle class), which is outside the library: plain numbers only on the left
+        return ['rmul', gen_tree(rnd, depth - 1), k['v'] if isinstance(k, dict) else k]
     if r < 0.94:
         return ['div', gen_tree(rnd, depth - 1), k]
     return ['mod', gen_tree(rnd, depth - 1), rnd.choice([360, 180, 90, 1, 360.0, 7.5])]
+
+
+def num(k):
+    """number operand: a Python int/float or {'np': dtype, 'v': value} for a numpy scalar of that dtype"""
+    if isinstance(k, dict):
+        import numpy as np
+        return getattr(np, k['np'])(k['v'])
+    return k
+
+
+def numf(k):
+    return float(num(k))
 
 
 def shadow(t):
@@ -304,7 +330,7 @@ def shadow(t):
         return -a, ta + 1e-8 / 3600
     if op == 'abs':
         return abs(a), ta + 1e-8 / 3600
-    k = t[2]
+    k = numf(t[2])
     if op in ('mul', 'rmul'):
         return a * k, ta * abs(k) + 1e-8 / 3600
     if op == 'div':
@@ -331,7 +357,7 @@ def mod_unstable(t):
         return False
     if op == 'mod':
         a, ta = shadow(t[1])
-        k = t[2]
+        k = numf(t[2])
         r = a % k
         if min(r, k - r) <= 4 * ta + 1e-9:
             return True
@@ -358,7 +384,7 @@ def evaluate(A, t, classes, it):
         return -a
     if op == 'abs':
         return abs(a)
-    k = t[2]
+    k = num(t[2])
     if op == 'mul':
         return a * k
     if op == 'rmul':
@@ -433,6 +459,28 @@ def compare_and_round(ns, ctx, rnd, v1, v2, c1, c2):
         round(a, n)
     except Exception:
         pass
+    # modulus with a fractional part close to the operand, moduli below one degree, and round-then-modulo sequences
+    # (rounding can leave seconds = 60.0 / minutes = 60.0 in the fields)
+    for cls in ('DMSAngle', 'DDMAngle'):
+        try:
+            o = ax.make_object(A, cls, abs(v1) if rnd.random() < 0.7 else v1)
+        except Exception:
+            continue
+        d = float(ax.denote(o))
+        for k in (math.floor(abs(d)) + rnd.choice([0.5, 0.25, 0.1]), rnd.choice([0.5, 0.25, 1.5, 7.5, 90.5]), float(int(abs(d)) + 1),
+                  round(rnd.uniform(0.1, 400.0), rnd.choice([0, 1, 3]))):
+            if k <= 0:
+                continue
+            try:
+                o % k
+            except Exception:
+                pass
+        try:
+            r = round(o, rnd.choice([0, 1, 2, 3]))
+            r % rnd.choice([360, 180, float(int(abs(d)) + 1), 90])
+            ctx.count('round_then_mod_sequences')
+        except Exception:
+            pass
     # the reflected operators are never reached by `x + y` between two angle objects (the left operand's own
     # operator always answers); they are part of the overload set, so they are driven directly
     for name in ('__radd__', '__rsub__'):
